@@ -58,7 +58,7 @@ class EnsembleSampler(MarkovChain):
             # store core data
             self.walker_positions = self.__validate_starting_positions(
                 starting_positions
-            ).copy()
+            ).astype(float)
             self.n_walkers, self.n_parameters = starting_positions.shape
             self.walker_probs = array(
                 [self.posterior(t) for t in self.walker_positions]
